@@ -110,9 +110,9 @@ impl SwiftField for Field50A {
         // Check if first line is party identifier
         if lines[0].starts_with('/') {
             let identifier = &lines[0][1..];
-            if identifier.len() > 34 {
+            if identifier.is_empty() || identifier.len() > 34 {
                 return Err(ParseError::InvalidFormat {
-                    message: "Field 50A party identifier exceeds 34 characters".to_string(),
+                    message: "Field 50A party identifier must be 1-34 characters".to_string(),
                 });
             }
             parse_swift_chars(identifier, "Field 50A party identifier")?;
